@@ -89,7 +89,8 @@ Print Assumptions C08_stream_yielded_after_signal.
 Theorem C08_stream_ends_after_interrupted : forall G rev st drain evs,
   let sc := mk_scfg G rev st true drain in
   s_alive (srun sc evs) = true -> w_ian (w (srun sc evs)) = true ->
-  snd (sstep sc (srun sc evs) SNext) = WNone /  w_ian (w (fst (sstep sc (srun sc evs) SNext))) = true.
+  snd (sstep sc (srun sc evs) SNext) = WNone /\
+  w_ian (w (fst (sstep sc (srun sc evs) SNext))) = true.
 Proof.
   intros G rev st drain evs sc Ha Hn. split.
   - apply sstep_after_interrupted; [reflexivity | exact Ha | exact Hn].
